@@ -14,7 +14,7 @@ from ..order import Interp
 from ..algebra_lin import linear_form
 
 FILESET = "typhon/files/fileset.py"
-EXPECT = {"C16.args": 2, "C16.keys": 2, "C16.shortcut": 4, "C16.window": 3, "C16.cover": 2, "C16.nearest": 2, "C16.single": 1, "C16.dispatch": 2}
+EXPECT = {"C16.args": 2, "C16.keys": 4, "C16.shortcut": 4, "C16.window": 3, "C16.cover": 2, "C16.nearest": 2, "C16.single": 1, "C16.dispatch": 2}
 
 
 def _guards(node):
@@ -402,6 +402,7 @@ def rule_keys(ctx):
     to_datetime must return a plain datetime for a pandas.Timestamp (a datetime subclass numpy cannot subtract from datetimes: the
     nearest-file computation raised TypeError for a Timestamp in a gap)."""
     ctx.rule("C16.keys", "T1", "every non-slice key reaches find_closest; to_datetime turns a pandas.Timestamp into a python datetime")
+    ob_time_resolution(ctx)
     f = ctx.func(FILESET, "FileSet.__getitem__")
     flow = Flow(f)
     fc = calls_in(f.node, "find_closest")
@@ -443,6 +444,30 @@ def rule_keys(ctx):
     ctx.ob("to_datetime.timestamp", okt, "a pandas.Timestamp is returned as %s" % val, "obj.to_pydatetime(): the Timestamp branch comes before `isinstance(obj, datetime)` "
            "(Timestamp is a datetime subclass) - find_closest computes |coverage - t| with numpy on python datetimes", node=rets[0], func=g,
            witness=None if okt else {"find_closest(pd.Timestamp('2018-01-05'))": "TypeError: unsupported operand type(s) for -: 'numpy.ndarray' and 'Timestamp'"})
+
+
+def ob_time_resolution(ctx):
+    """to_datetime / to_timedelta keep the microseconds of what they convert: every period limit, timestamp key and interval of the
+    file and collocation properties goes through them.  A cast to a numpy time unit coarser than microseconds floors the value."""
+    import re as _re
+    COARSE = {"Y", "M", "W", "D", "h", "m", "s", "ms"}
+    for name in ("to_datetime", "to_timedelta"):
+        g = ctx.func("typhon/utils/timeutils.py", name)
+        floors = []
+        for n_ in ast.walk(g.node):
+            if isinstance(n_, ast.Constant) and isinstance(n_.value, str):
+                m_ = _re.fullmatch(r"[<>=]?(datetime64|timedelta64|M8|m8)\[(\w+)\]", n_.value.strip())
+                if m_ and m_.group(2) in COARSE:
+                    floors.append(n_.value)
+            if isinstance(n_, ast.Call) and isinstance(n_.func, ast.Attribute) and n_.func.attr == "replace" \
+                    and any(k_.arg in ("microsecond", "second") for k_ in n_.keywords):
+                floors.append(str(norm(n_))[:50])
+            if isinstance(n_, ast.Call) and isinstance(n_.func, ast.Attribute) and n_.func.attr in ("floor", "round", "ceil") and n_.args \
+                    and isinstance(n_.args[0], ast.Constant) and isinstance(n_.args[0].value, str) and n_.args[0].value.lower() in ("s", "1s", "ms", "min", "h", "d", "t"):
+                floors.append(str(norm(n_))[:50])
+        ctx.ob("%s.resolution" % name, not floors, "conversions to a unit coarser than microseconds: %s" % (floors or "none"),
+               "none: a limit such as numpy.datetime64('...T12:00:00.4') keeps its fraction of a second (floored to whole seconds, points up to 1 s outside "
+               "the period are included / inside it are dropped)", node=g.node, func=g)
 
 
 def run(ctx):
